@@ -28,7 +28,7 @@ def scenario(me):
 STUBS = [
     'hasattr/getattr/setattr of stacks.control_status, list.append/pop/[-1] are atomic steps',
     'ControlStatusCtx(...) allocates a fresh object; its status/options fields are not tracked',
-    'thread-local semantics for `stacks` iff ag_ctx binds stacks = threading.local()',
+    'thread-local semantics for `stacks` as observed on the real object in two fresh threads (list identity)',
 ]
 
 
@@ -56,11 +56,49 @@ class _Hooks(object):
     raise py2smt.Unsupported('super().%s' % name)
 
 
+_PROBE = {}
+
+
+def probe_real():
+  """Semantics of the REAL `ag_ctx.stacks` object, observed in two fresh threads: is the
+  attribute present before first use, and do two threads get the same list object?
+  (The module text alone cannot tell, e.g. for a threading.local subclass whose __init__
+  receives a shared list.)"""
+  if _PROBE:
+    return _PROBE
+  from malt.core import ag_ctx
+  res = {}
+
+  def w(k):
+    res[k] = (hasattr(ag_ctx.stacks, 'control_status'), ag_ctx._control_ctx())
+
+  for k in ('a', 'b'):
+    th = threading.Thread(target=w, args=(k,))
+    th.start()
+    th.join()
+  _PROBE.update(present_before_first_use=res['a'][0], same_list_in_two_threads=res['a'][1] is res['b'][1])
+  return _PROBE
+
+
 def build(nthreads):
-  code, tl = extract()
+  code, tl_text = extract()
+  pr = probe_real()
+  tl = not pr['same_list_in_two_threads']
   programs = [list(code) for _ in range(nthreads)]
   inits = [{'in_me': 2 + t} for t in range(nthreads)]      # distinct ctx object ids per thread
-  m = bmc.Model(programs, inits, ns_thread_local=tl, max_list=3, keys=(), subs=())
+  extra, heap = (), {}
+  if pr['present_before_first_use']:
+    # the attribute already holds a list with the default context when a thread first looks
+    slots = ['shared'] if not tl else list(range(nthreads))
+    extra = tuple(40 + i for i in range(len(slots)))
+    for i, sl in enumerate(slots):
+      heap['ns.p.%s' % sl] = 1
+      heap['ns.v.%s' % sl] = 40 + i
+      heap['ll.%d' % (40 + i)] = 1
+      heap['ls.%d.0' % (40 + i)] = 7        # the default context object
+  m = bmc.Model(programs, inits, ns_thread_local=tl, max_list=3 + (0 if tl else nthreads), keys=(), subs=(),
+                extra_lists=extra, init_heap=heap)
+  m.probe = dict(pr, module_text_says_thread_local=tl_text)
   return m, tl
 
 
@@ -164,7 +202,8 @@ def run(R, tier):
     if n == 2 and (r['unwinding'] != 'unsat' or r['reach_twin'] != 'sat'):
       R.fatal.append('BMC sanity failed for %d threads: unwinding=%s reach_twin=%s' % (n, r['unwinding'], r['reach_twin']))
     R.count(res)
-    summary.append({'threads': n, 'thread_local_stacks': tl, 'steps': r['steps'], 'result': r['result'],
+    summary.append({'threads': n, 'thread_local_stacks': tl, 'probe_of_real_object': m.probe,
+                    'steps': r['steps'], 'result': r['result'],
                     'unwinding_assertion': r['unwinding'], 'reachability_twin': r['reach_twin'], 'time_s': r['time']})
     if r['result'] == 'sat':
       rp = replay_schedule(r['schedule'], n)
